@@ -176,6 +176,7 @@ def documented_edges(root, dirs, files, mp):
 
 
 def check_project(root, dirs, files, sources, out, tag):
+    rng = random.Random(repr((root, sorted(dirs), sorted(files))))      # choices inside depend on the project only (replayable)
     base = scan.materialise(dirs, files, sources)
     try:
         enc = rules.Enc()
@@ -199,10 +200,17 @@ def check_project(root, dirs, files, sources, out, tag):
                         out["violations"].append((dict(dirs=[list(d) for d in dirs], files={scan.dotted(f): (scan.render_v(v) if v["py"] else None) for f, v in files.items()},
                                                        module_path=list(mp), level_limit=k, missing=lost),
                                                   f"with level_limit={k} (module_path {scan.dotted(mp)}) the import {lost[0][0]} -> {lost[0][1]} promised by an import statement is missing", {"kind": "missing_edge_limited"}))
-            r = scan.real_scan(base, root, mp)
+            xk = {}
+            if tag == "random" and rng.random() < 0.3:
+                # exclusion patterns that differ from names of the tree only in case exclude nothing: every file stays scanned
+                xp = scan.harmless_case_exclusions(rng, dirs, files)
+                if xp:
+                    xk = {"exclusions": xp}
+                    out["stats"]["with_case_differing_exclusions"] = out["stats"].get("with_case_differing_exclusions", 0) + 1
+            r = scan.real_scan(base, root, mp, **xk)
             out["n"] += 1
             case = dict(dirs=[list(d) for d in dirs], files={scan.dotted(f): (sources.get(f) if sources and f in sources else scan.render_v(v)) if v["py"] else None for f, v in files.items()},
-                        module_path=list(mp), position=tag)
+                        module_path=list(mp), position=tag, options={k: list(v) for k, v in xk.items()})
             if r[0] != "OK":
                 out["violations"].append((dict(case, error=r[1]), f"scan failed: {r[1]}", {"kind": "scan_error"}))
                 continue
